@@ -200,7 +200,7 @@ func props() []engine.AnyProp {
 	for _, st := range sreg.Base() {
 		ps = append(ps, baseProp(st))
 	}
-	return append(ps, treeProp())
+	return append(ps, treeProp(), slowFeedProp())
 }
 
 func TestC05(t *testing.T) { engine.RunAll(t, props(), false) }
